@@ -542,7 +542,12 @@ class MultiRCUUtilizationContext(TwoPhaseWithBarrierContext, PipelineContextTool
             compiler_log: str,
             csv_fname: str,
             soc_freq: float,
-            core_freq: float) -> None:
+            core_freq: float,
+            stats_enabled: bool = True) -> None:
+
+        # the temporary 'dur' of utilization counters and the zero-valued helper counters are consumed by
+        # calculate_stats; when that stage is not registered (-t) they must not be produced at all
+        self.stats_enabled = stats_enabled
 
         super().__init__(warnings=[
             # count the number of events with >100% utilization (indication of table mismatch)
@@ -634,6 +639,11 @@ class MultiRCUUtilizationContext(TwoPhaseWithBarrierContext, PipelineContextTool
                 "args": {RCU_pt_util_counter_unit: utilization},
                 "dur": event["dur"]  # temporary duration in cycles- remove before viz
             }]
+        if not self.stats_enabled:
+            # nobody downstream removes the temporary duration or the zero-valued helper counter
+            if not utilization > 0.0:
+                return []
+            revents[0].pop("dur")
         if utilization > 0.0:   # add a reset-to-zero event only if util is non-zero
             revents.append({
                 "ph": "C",
